@@ -138,7 +138,7 @@ def numeric_value_rule(s: str) -> bool:
     return _agree(issues, ref.numeric_value_expect(s))
 
 
-_NUM_CLASSES = ["-", "+", ".", " "]
+_NUM_CLASSES = ["0", "1", "9", "-", "+", ".", " "]
 
 
 # ------------------------------------------------------------------------------------------ allowedCharacter
@@ -230,8 +230,11 @@ def _key(t):
     return ref.version_key(t[0], t[1:len(t) - 1], t[len(t) - 1])
 
 
-def _dep_cell(d, r1, r2):
+def _dep_cell(d, r1, r2, hv):
     if R.env_int("VP_REL", 2) == 1 and r2 != r1:      # one released version only: r2 is not a free variable
+        return False
+    hz = R.env_int("VP_HZ")
+    if hz is not None and (ord(hv[1]) == 48) != (hz == 1):
         return False
     k = R.env_int("VP_WHICH")
     if k is None:
@@ -258,7 +261,7 @@ def deprecated_from_rule(d: str, r1: str, r2: str, hv: str, ov: str, in_lib: boo
     """
     pre: 1 <= len(d) <= R.N(5)
     pre: _is_ver(r1) and _is_ver(r2) and _is_ver(hv) and _is_ver(ov)
-    pre: _dep_cell(d, r1, r2)
+    pre: _dep_cell(d, r1, r2, hv)
     pre: in_lib or R.env_int("VP_CFG", 0) != 1
     pre: not in_lib or R.env_int("VP_CFG", 0) != 0
     post: _
@@ -553,12 +556,16 @@ HARNESSES = [
         oracle="models/compliance_ref.py placeholder_expect", stubs=[_STUB_ENTRY], outside="a bare '#' root node"),
     R.H("deprecated_from_rule", [_AV + "tag_is_deprecated_check",
                                  "hed.schema.schema_validation_util.schema_version_for_library"],
-        quick=R.tier(cells=R.product_cells([{"VP_CFG": 0}, {"VP_CFG": 2}], [{"VP_WHICH": 0}, {"VP_WHICH": 2}]),
+        quick=R.tier(cells=R.product_cells([{"VP_CFG": 0}, {"VP_CFG": 2}],
+                                           [{"VP_WHICH": 0, "VP_HZ": 0}, {"VP_WHICH": 0, "VP_HZ": 1}, {"VP_WHICH": 2}]),
                      env={"VP_N": 5, "VP_M": 1, "VP_REL": 1}, timeout=400, path_timeout=40,
                      bound="deprecatedFrom = every Unicode text of 1..5 characters; one released version, the "
                            "schema version and the partner version each d.d.d (major 1-9, minor and patch 0-9); "
                            "standard schema / partnered library schema; element with or without inLibrary"),
-        thorough=R.tier(cells=R.product_cells(R.int_cells("VP_CFG", 0, 2), R.int_cells("VP_WHICH", 0, 2)),
+        thorough=R.tier(cells=R.product_cells(R.int_cells("VP_CFG", 0, 2),
+                                              [{"VP_WHICH": 0, "VP_HZ": 0}, {"VP_WHICH": 0, "VP_HZ": 1},
+                                               {"VP_WHICH": 1, "VP_HZ": 0}, {"VP_WHICH": 1, "VP_HZ": 1},
+                                               {"VP_WHICH": 2}]),
                         env={"VP_N": 6, "VP_M": 2, "VP_MAJOR0": 1}, timeout=1100, path_timeout=60,
                         bound="as quick with two released versions, a stand-alone library schema as third "
                               "configuration, major 0-9 and minor version numbers of 1..2 digits (d.dd.d), "
@@ -580,14 +587,16 @@ HARNESSES = [
         outside="more than two children"),
     R.H("item_exists_rule", [_AV + "item_exists_check", "hed.schema.hed_schema_section.HedSchemaTagSection.get",
                              "hed.schema.hed_schema_section.HedSchemaSection.get"],
-        quick=R.tier(cells=_cells(3, [",", "/", "A", "a"], 3, extra=R.int_cells("VP_KIND", 0, 2)),
-                     env={"VP_N": 3}, timeout=200,
-                     bound="every printable-ASCII list value of <= 3 characters against a tag section {A, A/B, "
-                           "A/D(deprecated)} and unit-/value-class sections {u, v, d(deprecated)}; holder "
+        quick=R.tier(cells=_cells(4, _ITEM_CLASSES, 3, split1_from=4, extra=[{"VP_KIND": 0, "VP_N": 4}])
+                     + _cells(3, _ITEM_CLASSES, 3, extra=[{"VP_KIND": 1, "VP_N": 3}, {"VP_KIND": 2, "VP_N": 3}]),
+                     env={}, timeout=200,
+                     bound="every printable-ASCII list value of <= 4 characters against a tag section {A, A/B, "
+                           "A/D(deprecated)}, of <= 3 characters against unit-/value-class sections {u, v, "
+                           "d(deprecated)}; holder "
                            "deprecated or not"),
-        thorough=R.tier(cells=_cells(5, [",", "/", "A", "a"], 3, split1_from=4, split2_from=5,
+        thorough=R.tier(cells=_cells(5, _ITEM_CLASSES, 3, split1_from=4, split2_from=5,
                                      extra=R.int_cells("VP_KIND", 0, 2)),
-                        env={"VP_N": 5}, timeout=900, bound="as quick with values of <= 5 characters"),
+                        env={"VP_N": 5}, timeout=900, bound="values of <= 5 characters against all three sections"),
         what="one SCHEMA_ATTRIBUTE_VALUE_INVALID per non-empty item that names nothing in the section; one "
              "SCHEMA_DEPRECATION_ERROR per item naming a deprecated element unless the holder is deprecated itself; "
              "existing items give nothing",
@@ -598,7 +607,7 @@ HARNESSES = [
         outside="the 1200-tag tables of the bundled schemas; non-ASCII item names"),
     R.H("hed_id_rule", ["hed.schema.schema_attribute_validator_hed_id.HedIDValidator.verify_tag_id",
                         "hed.schema.schema_io.df_util.remove_prefix"],
-        quick=R.tier(cells=_cells(2, ["0", "1", "-", " "], 1, extra=R.int_cells("VP_PREV", 0, 1)),
+        quick=R.tier(cells=_cells(2, ["0", "1", "-", " "], 1, split1_from=2, extra=R.int_cells("VP_PREV", 0, 1)),
                      env={"VP_N": 2, "VP_M": 1}, timeout=300,
                      bound="hedId = 'HED_' + every printable-ASCII text of <= 2 characters; previous version absent / "
                            "element new / element without id / element with id HED_d (any digit); id range absent or "
@@ -622,7 +631,7 @@ HARNESSES = [
                      env={"VP_N": 4}, timeout=200,
                      bound="every Unicode term of 1..4 characters; entry allowedCharacter absent / 'blank' / "
                            "'colon,slash'"),
-        thorough=R.tier(cells=_cells(6, _CHAR_CLASSES, 3, split1_from=5, split2_from=6, minlen=1,
+        thorough=R.tier(cells=_cells(6, _CHAR_CLASSES, 4, split1_from=6, minlen=1,
                                      extra=R.int_cells("VP_EXTRA", 0, 2)),
                         env={"VP_N": 6}, timeout=900, bound="as quick with terms of 1..6 characters"),
         what="one SCHEMA_CHARACTER_INVALID per character outside letters, digits, '-', '.', '_', the entry's own "
@@ -633,7 +642,7 @@ HARNESSES = [
                                         "hed.schema.schema_validation_util.get_problem_indexes"],
         quick=R.tier(cells=_cells(4, _CHAR_CLASSES, 3), env={"VP_N": 4}, timeout=200,
                      bound="every Unicode description of <= 4 characters"),
-        thorough=R.tier(cells=_cells(6, _CHAR_CLASSES, 3, split1_from=5, split2_from=6), env={"VP_N": 6}, timeout=900,
+        thorough=R.tier(cells=_cells(6, _CHAR_CLASSES, 4, split1_from=6), env={"VP_N": 6}, timeout=900,
                         bound="every Unicode description of <= 6 characters"),
         what="one SCHEMA_CHARACTER_INVALID per ASCII character that is not printable or is one of [ ] { }; commas and "
              "non-ASCII text are accepted",
@@ -643,8 +652,8 @@ HARNESSES = [
         quick=R.tier(cells=_cells(3, _CHAR_CLASSES, 2), env={"VP_N": 3, "VP_M": 2}, timeout=200,
                      bound="every Unicode text of <= 3 characters x every character set of <= 2 symbolic characters "
                            "(+ optional 'nonascii') x index adjustment -3..3"),
-        thorough=R.tier(cells=_cells(5, _CHAR_CLASSES, 2, split1_from=4, split2_from=5), env={"VP_N": 5, "VP_M": 3},
-                        timeout=900, bound="text <= 5, character set <= 3"),
+        thorough=R.tier(cells=_cells(5, _CHAR_CLASSES, 3, split1_from=4, split2_from=5), env={"VP_N": 5, "VP_M": 2},
+                        timeout=900, bound="text <= 5, character set <= 2"),
         what="returns exactly the (character, index + adjustment) pairs, in order, of characters not in the set "
              "(code points > 127 exempt when the set contains 'nonascii'); an empty set restricts nothing",
         oracle="inline list comprehension from the docstring", stubs=[_CHSET], outside="longer texts"),
